@@ -266,6 +266,9 @@ class Facts:
             if c.get("pcc") is None and mb.get("remaining_patch") and silent:
                 names = set(ap.get("fns") or [])
                 self.lost_wakeup = "finalizer" if names and names <= {"block_deletion", "allow_deletion"} else "handler"
+                prev = (mine[-2].get("apply") or {}) if len(mine) > 1 else {}
+                if prev.get("remaining_fns") is None:
+                    self.lost_wakeup = "stale"      # carried although the cycle before had no conflict
             elif ap.get("delays") and not ap.get("patch") and ap.get("fns") and silent:
                 self.idle_fns = True
         # what the cross-uid writes carried: annotation keys set / deleted on the successor
@@ -418,7 +421,8 @@ def oracle(ctx: Ctx, sc: dict, tr: dict) -> dict:
         fail("handling stopped for good with the change still outstanding: the last cycle carried a remaining patch, "
              "skipped the handlers and wrote nothing, so no event will ever re-trigger it",
              {**rep, "last_handled": base, "essence": f.ess, "annotations": sorted((f.final["metadata"].get("annotations") or {}))},
-             SIG_F5 if f.lost_wakeup == "finalizer" else SIG_N2, tag="C03-F5" if f.lost_wakeup == "finalizer" else "C03-N2")
+             {"finalizer": SIG_F5, "handler": SIG_N2}.get(f.lost_wakeup, {"site": "process_resource_event", "shape": "a patch is carried into a cycle although the cycle before had no conflict"}),
+             tag={"finalizer": "C03-F5", "handler": "C03-N2"}.get(f.lost_wakeup))
         out["class"] = "lost-wakeup"
         return out
     if not f.blind and base != f.ess:
